@@ -78,7 +78,9 @@ SchemeEnd(h) == LET bad == {k \in 1..Len(h) : ~IsGraph(h[k])} IN IF bad = {} THE
 CredStart(h) == LET a == SchemeEnd(h)
                     ns == {k \in a..Len(h) : ~IsSpace(h[k])}
                 IN IF ns = {} THEN Len(h) + 1 ELSE CHOOSE k \in ns : \A j \in ns : k <= j
-CredPart(h) == SubSeq(h, CredStart(h), Len(h))
+\* a header field value has no line breaks: the credentials end before the first LF, if any
+CredEnd(h) == LET nl == {k \in CredStart(h)..Len(h) : h[k] = 10} IN IF nl = {} THEN Len(h) ELSE (CHOOSE k \in nl : \A j \in nl : k <= j) - 1
+CredPart(h) == SubSeq(h, CredStart(h), CredEnd(h))
 
 \* ---- I-layer: the decoding automaton (nettle base64_decode_single/update/final) ----
 \* state: bits buffered (0,2,4,6), their value, padding seen, output, failed
